@@ -10,6 +10,39 @@ T_MODES = ['obs', 'obs', 'obs_up', 'obs_dn', 'grid']
 GRID = {False: [0.5, 0.1, 0.05, 0.01, 0.001, 1e-6, 1.0, 2.0], True: [1.0, 0.999, 0.99, 0.9, 0.5, 0.1]}
 
 
+def zero_run_curve(rng, n):
+    """piecewise-linear curve whose runs end exactly at y = 0 (collinear runs that touch zero: the shape on which a
+    perfect end-point fit has a large relative cost because the fitted value at the zero is rounding noise)"""
+    xs = gen.xs_increasing(rng, n, rng.choice(['unit', 'int', 'int']))
+    nb = rng.randint(0, max(0, min(3, n - 2)))
+    bps = [0] + sorted(rng.sample(range(1, n - 1), nb)) + [n - 1] if n > 2 else [0, n - 1]
+    z = rng.random() < 0.5
+    vals = []
+    for _ in bps:
+        vals.append(0.0 if z else float(rng.choice([1, 2, 3, 6, 9, 12, 27])))
+        z = not z
+    if rng.random() < 0.5:   # integer slopes where possible: peak = slope * gap
+        for j in range(len(bps)):
+            if vals[j] != 0.0:
+                k = j - 1 if j > 0 else j + 1
+                vals[j] = float(rng.choice([1, 2, 3, 9])) * abs(xs[bps[j]] - xs[bps[k]])
+    ys = []
+    for i in range(n):
+        j = max(k for k in range(len(bps)) if bps[k] <= i)
+        if bps[j] == i or j == len(bps) - 1:
+            ys.append(vals[j])
+        else:
+            x0, x1 = xs[bps[j]], xs[bps[j + 1]]
+            ys.append(vals[j] + (vals[j + 1] - vals[j]) * (xs[i] - x0) / (x1 - x0))
+    return 'zero_run', [[float(x), float(max(0.0, y))] for x, y in zip(xs, ys)]
+
+
+def make_curve(rng, n):
+    if rng.random() < 0.15:
+        return zero_run_curve(rng, n)
+    return gen.curve(rng, n)
+
+
 # ---------------------------------------------------------------------------------------------
 # the library's own primitives on sub-arrays (the oracles of DESIGN 2.3), and pass-through recorders
 
@@ -173,6 +206,8 @@ def pick_threshold(orc, c):
         cand = sorted(set(v for v in cand if ok(v)))
     if not cand:
         cand = GRID[r2]
+    if mode != 'grid' and len(cand) > 2 and r.random() < 0.5:
+        cand = cand[len(cand) // 2:] if r2 else cand[:(len(cand) + 1) // 2]   # the side on which more splits happen
     return r.choice(cand)
 
 
@@ -203,7 +238,7 @@ class C04:
                 n = rng.choice([2, 3, 4, 5, 6, 7, 8, 9, 10, 12, 14, 16]) if rng.random() < 0.75 else rng.randint(17, nmax)
             else:
                 n = rng.randint(2, nmax)
-            fam, pts = gen.curve(rng, n)
+            fam, pts = make_curve(rng, n)
             reps = CONFIGS if (tier == 'thorough' and n <= 6 and rng.random() < 0.1) else [CONFIGS[k % len(CONFIGS)]]
             for (d, m) in reps:
                 cases.append({'points': pts, 'family': fam, 'dist': d, 'cost': m,
